@@ -138,6 +138,12 @@ Ltac widths_in W :=
 Lemma oseq_assoc a b c : oseq (oseq a b) c = oseq a (oseq b c).
 Proof. destruct a; reflexivity. Qed.
 
+(* constant-table lookups with a literal index *)
+Ltac eval_tables :=
+  repeat match goal with
+  | |- context [nth_N ?t ?i] => let v := eval vm_compute in (nth_N t i) in change (nth_N t i) with v
+  end.
+
 (* a condition that does not mention the job is a closed boolean: compute it instead of splitting *)
 Ltac split_cond c :=
   lazymatch c with
@@ -150,6 +156,10 @@ Ltac split_cond c :=
          | _ => let H := fresh "C" in destruct c eqn:H
          end
   end.
+(* the family hypotheses fix cipher_mode / hash_alg: substitute them wherever the body reads the job field *)
+Ltac use_known_enums :=
+  try match goal with H : jv_hash_alg _ = _ |- _ => rewrite H end;
+  try match goal with H : jv_cipher_mode _ = _ |- _ => rewrite H end.
 Ltac walk :=
   repeat lazymatch goal with
   | |- agree (if ?c then _ else _) _ _ => split_cond c
@@ -159,7 +169,8 @@ Ltac walk :=
   | |- agree (oseq None _) _ _ => unfold oseq at 1
   | |- agree (Some _) _ _ => fail
   | |- agree None _ _ => fail
-  | |- agree (?f _ _ _ _ _) _ _ => cbv beta zeta delta [f]; norm_arith; gen_enums_unfold   (* a generated case-group body *)
+  | |- agree (?f _ _ _ _ _) _ _ =>   (* a generated case-group body *)
+      cbv beta zeta delta [f]; use_known_enums; norm_arith; gen_enums_unfold; eval_tables
   end.
 
 
@@ -225,6 +236,10 @@ Ltac arith := unfold pon_pli, MB_MAX_LEN16; norm_arith_goal; gen_enums_unfold_go
 Ltac pick_rule :=
   first [ apply viol_here; [ reflexivity | cat; arith ]
         | apply viol_skip; pick_rule ].
+(* a C condition `a || b` whose disjuncts violate DIFFERENT rules with the same errno *)
+Ltac split_or_hyp :=
+  match goal with H : (_ || _) = true |- _ => apply orb_true_iff in H; destruct H as [H|H] end.
+Ltac pick_rule_cases := first [ pick_rule | split_or_hyp; pick_rule_cases ].
 Ltac all_ok :=
   repeat (apply ok_cons; [ cat; arith | ]); apply ok_nil.
 
@@ -250,7 +265,7 @@ Ltac open_outside H :=
 Ltac leaf W :=
   unfold agree; open_rules;
   lazymatch goal with
-  | |- violated_with _ _ _ = true => widths_in W; pick_rule
+  | |- violated_with _ _ _ = true => widths_in W; pick_rule_cases
   | |- _ -> rules_ok _ _ = true => let Ho := fresh "Hout" in intros Ho; open_outside Ho; gen_enums_unfold; widths_in W; all_ok
   end.
 
